@@ -61,6 +61,9 @@ func newRunner(prop, tier string, seed uint64) *runner {
 // add executes the case on the implementation and queues it for the model.
 func (rn *runner) add(tc *testCase) { rn.addWith(tc, nil) }
 
+// lastStore is the store of the case executed last by addWith (suites that carry objects over to the next case)
+var lastStore *store
+
 // addWith runs `pre` before every op (used to set per-op harness-side options).
 func (rn *runner) addWith(tc *testCase, pre func()) {
 	if rn.recordLast != "" {
@@ -68,6 +71,7 @@ func (rn *runner) addWith(tc *testCase, pre func()) {
 		os.WriteFile(rn.recordLast, []byte(strings.Join(tc.ops, "\n")+"\n"), 0o644)
 	}
 	st := newStore()
+	lastStore = st
 	tc.impl = make([]string, len(tc.ops))
 	for i, op := range tc.ops {
 		if pre != nil {
@@ -173,6 +177,9 @@ func (rn *runner) flush() {
 				if strings.HasPrefix(tc.ops[i], "spec") && replies[k] != "outside" && replies[k] != tc.impl[i] {
 					rn.disagree(disagreement{Kind: "spec", Ops: tc.ops, At: i, Impl: tc.impl[i], Other: replies[k], Note: tc.note})
 				}
+				if strings.HasPrefix(tc.ops[i], "spec ") {
+					rn.parseVsSpec(tc, i, replies[k])
+				}
 				k++
 				continue
 			}
@@ -182,6 +189,7 @@ func (rn *runner) flush() {
 				if replies[k] != "outside" && replies[k] != tc.impl[i] {
 					rn.disagree(disagreement{Kind: "spec", Ops: tc.ops, At: i, Impl: tc.impl[i], Other: replies[k], Note: tc.note})
 				}
+				rn.parseVsSpec(tc, i, replies[k])
 				k++
 				continue
 			}
@@ -197,6 +205,26 @@ func (rn *runner) flush() {
 		}
 	}
 	rn.pending = rn.pending[:0]
+}
+
+// parseVsSpec compares the specification's verdict on an input (reply to the `spec` op at index i) with the outcome of
+// the parse call of the same case on the same bytes — which may have been given a reuse argument or caller-owned
+// destinations: acceptance must not depend on those.
+func (rn *runner) parseVsSpec(tc *testCase, i int, verdict string) {
+	if verdict == "outside" || !strings.HasPrefix(tc.ops[i], "spec ") {
+		return
+	}
+	sw := strings.Fields(tc.ops[i])
+	for j := 0; j < i; j++ {
+		pw := strings.Fields(tc.ops[j])
+		if len(pw) == 5 && pw[0] == "parse" && len(sw) == 3 && pw[2] == sw[1] && pw[4] == sw[2] {
+			accepted := strings.HasPrefix(tc.impl[j], "ok")
+			if accepted != strings.HasPrefix(verdict, "accept") {
+				rn.disagree(disagreement{Kind: "spec", Ops: tc.ops, At: j, Impl: tc.impl[j], Other: outcomeOf(verdict), Note: tc.note, Detail: "outcome of the parse call against the specification's verdict on the same input"})
+			}
+			return
+		}
+	}
 }
 
 func (rn *runner) finish(path string) {
